@@ -690,7 +690,16 @@ impl EGraph {
             self.report_level,
             context,
         )?;
-        if let Some(message) = self.panic_message.lock().unwrap().take() {
+        let panic_message = self.panic_message.lock().unwrap().take();
+        if let Some(message) = panic_message {
+            // Unions staged before the panic have already been merged into the
+            // union-find by `run_rule_set`: rebuild before reporting the error so
+            // that the database is left canonical.
+            if uf_size_before != self.db.get_table(self.uf_table).len() {
+                self.rebuild()?;
+                // A panic recorded while rebuilding is subsumed by the one being reported.
+                self.panic_message.lock().unwrap().take();
+            }
             return Err(PanicError(message).into());
         }
 
